@@ -51,6 +51,9 @@ def gen_case(rng, idx):
             else:
                 m = [gen_mass(rng) for _ in range(n_steps)]
             e = {"kind": [k[0].value, k[1].value, k[2].value], "mass": m}
+            if isinstance(m, list) and rng.random() < 0.15:      # a hand-written whole-number series in an integer array
+                e["mass"] = m = [float(round(x)) for x in m]
+                e["repr"] = "int-series"
             if not isinstance(m, list):       # how the scalar is held: Python float, numpy scalar, or a 0-d array (np.squeeze of a one-step series)
                 e["repr"] = str(rng.choice(["float", "float64", "0d"], p=[0.6, 0.2, 0.2]))
             entries.append(e)
@@ -100,7 +103,7 @@ def build_record(entries, user_json):
         t, o, s = e["kind"]
         kind = (TypeFuel(t), FuelOrigin(o), FuelSpecifiedBy(s))
         m = e["mass"]
-        mass = np.array(m, dtype=float) if isinstance(m, list) else \
+        mass = np.array(m, dtype=int if (e.get("repr") == "int-series" and all(float(x).is_integer() for x in m)) else float) if isinstance(m, list) else \
             {"float": float, "float64": np.float64, "0d": lambda x: np.asarray(float(x))}[e.get("repr", "float")](m)
         user = None
         if kind[2] == FuelSpecifiedBy.USER:
